@@ -456,6 +456,20 @@ Theorem C03_op_zadd_exact : forall u off d, nvalid u -> valid d ->
 Proof. exact op_zadd_exact. Qed.
 Print Assumptions C03_op_zadd_exact.
 
+(* ar.zaddstd: DateTime<Tz> + / - core::time::Duration reduces to the same TimeDelta operators *)
+Theorem C03_ops_zstd_agree : forall a s n,
+  match from_std s n with
+  | Some d => op_zadd_std a s n = op_zadd_td a d /\ op_zsub_std a s n = op_zsub_td a d
+  | None => op_zadd_std a s n = Panic /\ op_zsub_std a s n = Panic
+  end.
+Proof. exact ops_zstd_agree. Qed.
+Print Assumptions C03_ops_zstd_agree.
+(* ar.opndiff / ar.opzdiff / ar.opddiff: the difference operators are the method signed_duration_since *)
+Theorem C03_ops_diff_agree : (forall a b, op_nsub_ndt a b = ndt_signed_duration_since a b) /\
+  (forall a b, op_zsub_z a b = dz_signed_duration_since a b) /\ (forall a b, op_dsub_date a b = Date.signed_duration_since a b).
+Proof. exact ops_diff_agree. Qed.
+Print Assumptions C03_ops_diff_agree.
+
 (* ---- ar.opzdiffref: DateTime - &DateTime is signed_duration_since: the exact distance of the instants ---- *)
 Theorem C03_op_zsub_zref_agree : forall a b,
   op_zsub_zref a b = dz_signed_duration_since a b /\ op_zsub_zref a b = op_zsub_z a b.
